@@ -1342,4 +1342,196 @@ theorem blindsend_spec [Inhabited α] (native : Bool) (ty : RefType) (hty : ty.i
     have := bSize_blind w hd r hr'
     simp only [this, isum_eq_sum, countsI_column_sum w r hr']
 
+/-! ### the shares of `ref_mpi_balance` -/
+
+/-- the share of rank `r` in natural numbers -/
+def shareNat (total first last r : Nat) : Nat :=
+  if first ≤ r ∧ r ≤ last then
+    total / (last - first + 1) + (if r - first < total % (last - first + 1) then 1 else 0)
+  else 0
+
+theorem shareOf_eq (total first last r : Nat) (hfl : first ≤ last) :
+    shareOf (total : Int) (first : Int) (last : Int) (r : Int) = (shareNat total first last r : Int) := by
+  unfold shareOf shareNat
+  have hact : (last : Int) - (first : Int) + 1 = ((last - first + 1 : Nat) : Int) := by omega
+  rw [hact]
+  by_cases hin : first ≤ r ∧ r ≤ last
+  · have hin' : (first : Int) ≤ (r : Int) ∧ (r : Int) ≤ (last : Int) := by omega
+    simp only [hin, hin', and_self, if_true]
+    rw [Int.tdiv_eq_ediv_of_nonneg (by omega)]
+    have hdiv : (total : Int) / ((last - first + 1 : Nat) : Int) = ((total / (last - first + 1) : Nat) : Int) := by
+      norm_cast
+    have hmod : (total : Int) - (total : Int) / ((last - first + 1 : Nat) : Int) * ((last - first + 1 : Nat) : Int)
+        = ((total % (last - first + 1) : Nat) : Int) := by
+      have := Int.ediv_mul_add_emod (total : Int) ((last - first + 1 : Nat) : Int)
+      have h2 : (total : Int) % ((last - first + 1 : Nat) : Int) = ((total % (last - first + 1) : Nat) : Int) := by
+        norm_cast
+      omega
+    rw [hmod, hdiv]
+    have hmax : max (0 : Int) ((r : Int) - (first : Int)) = ((r - first : Nat) : Int) := by omega
+    rw [hmax]
+    by_cases hlt : r - first < total % (last - first + 1)
+    · have : ((r - first : Nat) : Int) < ((total % (last - first + 1) : Nat) : Int) := by omega
+      simp only [hlt, this, if_true]
+      push_cast; rfl
+    · have : ¬ ((r - first : Nat) : Int) < ((total % (last - first + 1) : Nat) : Int) := by omega
+      simp only [hlt, this, if_false]
+      push_cast; rfl
+  · have hin' : ¬ ((first : Int) ≤ (r : Int) ∧ (r : Int) ≤ (last : Int)) := by omega
+    simp only [hin, hin', if_false]
+    have : ¬ (max (0 : Int) ((r : Int) - (first : Int)) < 0) := by omega
+    simp [this]
+
+/-- closed form of the running total of the shares -/
+theorem prefSum_shareNat (total first last : Nat) (hfl : first ≤ last) (k : Nat) :
+    prefSum (shareNat total first last) k
+      = (min k (last + 1) - first) * (total / (last - first + 1))
+        + min (min k (last + 1) - first) (total % (last - first + 1)) := by
+  induction k with
+  | zero => simp [prefSum]
+  | succ k ih =>
+    rw [prefSum_succ, ih]
+    unfold shareNat
+    by_cases h1 : k < first
+    · have e1 : min k (last + 1) - first = 0 := by omega
+      have e2 : min (k + 1) (last + 1) - first = 0 := by omega
+      have hin : ¬ (first ≤ k ∧ k ≤ last) := by omega
+      rw [e1, e2]
+      simp only [hin, if_false, Nat.zero_mul, Nat.zero_min, Nat.add_zero]
+    · by_cases h2 : k ≤ last
+      · have e1 : min k (last + 1) - first = k - first := by omega
+        have e2 : min (k + 1) (last + 1) - first = (k - first) + 1 := by omega
+        have hin : first ≤ k ∧ k ≤ last := by omega
+        rw [e1, e2]
+        simp only [hin, and_self, if_true, Nat.succ_mul]
+        by_cases hlt : k - first < total % (last - first + 1)
+        · simp only [hlt, if_true]; omega
+        · simp only [hlt, if_false]; omega
+      · have e1 : min k (last + 1) - first = last + 1 - first := by omega
+        have e2 : min (k + 1) (last + 1) - first = last + 1 - first := by omega
+        have hin : ¬ (first ≤ k ∧ k ≤ last) := by omega
+        rw [e1, e2]
+        simp only [hin, if_false, Nat.add_zero]
+
+theorem prefSum_shareNat_total (total first last np : Nat) (hfl : first ≤ last) (hl : last < np) :
+    prefSum (shareNat total first last) np = total := by
+  rw [prefSum_shareNat total first last hfl np]
+  have e1 : min np (last + 1) - first = last - first + 1 := by omega
+  rw [e1]
+  have hlt : total % (last - first + 1) < last - first + 1 := Nat.mod_lt _ (by omega)
+  rw [Nat.min_eq_right (by omega)]
+  exact Nat.div_add_mod total (last - first + 1)
+
+
+theorem shareNat_inactive (total first last r : Nat) (h : r < first ∨ last < r) : shareNat total first last r = 0 := by
+  unfold shareNat
+  have : ¬ (first ≤ r ∧ r ≤ last) := by omega
+  simp [this]
+
+theorem shareNat_active_diff (total first last r q : Nat) (hr : first ≤ r ∧ r ≤ last) (hq : first ≤ q ∧ q ≤ last) :
+    shareNat total first last r ≤ shareNat total first last q + 1 := by
+  unfold shareNat
+  simp only [hr, hq, and_self, if_true]
+  split <;> split <;> omega
+
+/-! ### `find_destination` -/
+
+theorem findDest_bounds (n : Int) (shares : List Int) (part gid : Int) (h0 : ∀ s ∈ shares, 0 ≤ s)
+    (hg0 : 0 ≤ gid) (hg : gid < shares.sum) :
+    part ≤ findDest n part shares gid ∧ findDest n part shares gid < part + shares.length := by
+  induction shares generalizing part gid with
+  | nil => simp at hg; omega
+  | cons s ss ih =>
+    unfold findDest
+    by_cases hlt : gid < s
+    · simp only [hlt, if_true, List.length_cons]
+      omega
+    · simp only [hlt, if_false, List.length_cons]
+      simp only [List.sum_cons] at hg
+      have := ih (part + 1) (gid - s) (fun x hx => h0 x (List.mem_cons_of_mem _ hx)) (by omega) (by omega)
+      push_cast
+      omega
+
+/-- `find_destination` returns `r` exactly for the global ids in `[Σ_{q<r} shares, Σ_{q≤r} shares)` -/
+theorem findDest_iff (n : Int) (shares : List Int) (part gid : Int) (r : Nat) (h0 : ∀ s ∈ shares, 0 ≤ s)
+    (hg0 : 0 ≤ gid) (hg : gid < shares.sum) (hr : r < shares.length) :
+    findDest n part shares gid = part + r
+      ↔ (shares.take r).sum ≤ gid ∧ gid < (shares.take (r + 1)).sum := by
+  induction shares generalizing part gid r with
+  | nil => simp at hr
+  | cons s ss ih =>
+    have hs0 := h0 s List.mem_cons_self
+    have hss0 : ∀ x ∈ ss, 0 ≤ x := fun x hx => h0 x (List.mem_cons_of_mem _ hx)
+    simp only [List.sum_cons] at hg
+    unfold findDest
+    by_cases hlt : gid < s
+    · simp only [hlt, if_true]
+      cases r with
+      | zero => simp [hlt, hg0]
+      | succ r =>
+        have hnn : 0 ≤ (ss.take r).sum := sum_nonneg_int _ (fun x hx => hss0 x (List.mem_of_mem_take hx))
+        simp only [List.take_succ_cons, List.sum_cons]
+        constructor
+        · intro h; push_cast at h; omega
+        · intro h; omega
+    · simp only [hlt, if_false]
+      have hb := findDest_bounds n ss (part + 1) (gid - s) hss0 (by omega) (by omega)
+      cases r with
+      | zero =>
+        simp only [List.take_zero, List.sum_nil, List.take_succ_cons, List.sum_cons, Int.add_zero]
+        constructor
+        · intro h; push_cast at h; omega
+        · intro h; omega
+      | succ r =>
+        have := ih (part + 1) (gid - s) r hss0 (by omega) (by omega) (by simpa using hr)
+        simp only [List.take_succ_cons, List.sum_cons]
+        have e : part + ((r + 1 : Nat) : Int) = part + 1 + (r : Int) := by omega
+        rw [e, this]
+        omega
+
+/-- the shares as the `REF_INT` array the C gathers -/
+def sharesI (cs : Nat → Nat) (np : Nat) : List Int := (List.range np).map fun r => (cs r : Int)
+
+theorem sharesI_take_sum (cs : Nat → Nat) (np r : Nat) (hr : r ≤ np) :
+    ((sharesI cs np).take r).sum = (prefSum cs r : Int) := by
+  unfold sharesI
+  rw [← List.map_take, List.take_range, Nat.min_eq_left hr, sum_range_cast]
+
+theorem findDestination_iff (cs : Nat → Nat) (np : Nat) (k r : Nat) (hk : k < prefSum cs np) (hr : r < np) :
+    findDestination np (sharesI cs np) (k : Int) = (r : Int)
+      ↔ prefSum cs r ≤ k ∧ k < prefSum cs (r + 1) := by
+  unfold findDestination
+  have htake : (sharesI cs np).take np = sharesI cs np := by
+    apply List.take_of_length_le; simp [sharesI]
+  rw [htake]
+  have h0 : ∀ s ∈ sharesI cs np, 0 ≤ s := by
+    intro s hs
+    simp only [sharesI, List.mem_map] at hs
+    obtain ⟨_, _, rfl⟩ := hs; omega
+  have hsum : (sharesI cs np).sum = (prefSum cs np : Int) := by
+    have := sharesI_take_sum cs np np (Nat.le_refl _)
+    rwa [List.take_of_length_le (by simp [sharesI])] at this
+  have := findDest_iff (np : Int) (sharesI cs np) 0 (k : Int) r h0 (by omega) (by rw [hsum]; omega)
+    (by simpa [sharesI] using hr)
+  rw [Int.zero_add] at this
+  rw [this, sharesI_take_sum cs np r (by omega), sharesI_take_sum cs np (r + 1) (by omega)]
+  omega
+
+theorem findDestination_range (cs : Nat → Nat) (np : Nat) (k : Nat) (hk : k < prefSum cs np) :
+    0 ≤ findDestination np (sharesI cs np) (k : Int) ∧ findDestination np (sharesI cs np) (k : Int) < np := by
+  unfold findDestination
+  have htake : (sharesI cs np).take np = sharesI cs np := by
+    apply List.take_of_length_le; simp [sharesI]
+  rw [htake]
+  have h0 : ∀ s ∈ sharesI cs np, 0 ≤ s := by
+    intro s hs
+    simp only [sharesI, List.mem_map] at hs
+    obtain ⟨_, _, rfl⟩ := hs; omega
+  have hsum : (sharesI cs np).sum = (prefSum cs np : Int) := by
+    have := sharesI_take_sum cs np np (Nat.le_refl _)
+    rwa [List.take_of_length_le (by simp [sharesI])] at this
+  have := findDest_bounds (np : Int) (sharesI cs np) 0 (k : Int) h0 (by omega) (by rw [hsum]; omega)
+  simp only [sharesI, List.length_map, List.length_range] at this ⊢
+  omega
+
 end Refine.Lemmas.Comm
